@@ -30,4 +30,12 @@ def outputStage (found : Bool) (print : Bool) (f : OutFaults) : Outcome :=
       else none
     { exit := err.getD 0, listing := print, fileComplete := f.requested && f.created && f.written }
 
+/-- the same with the one further fault the output stage can meet: `--print` while the reader of
+    stdout has gone away (closed pipe). main.rs writes the file first, then `print!`s the listing —
+    which panics on a write error (exit status 101) —, and only then exits with the remembered
+    output error: the panic pre-empts that status, never the other way round -/
+def outputStage2 (found : Bool) (print : Bool) (f : OutFaults) (stdoutClosed : Bool) : Outcome :=
+  let o := outputStage found print f
+  if found && print && stdoutClosed then { exit := 101, listing := false, fileComplete := o.fileComplete } else o
+
 end CLI
